@@ -19,6 +19,8 @@ type Result struct {
 	Seconds float64
 	Model   string
 	Output  string
+	confirmed  bool
+	replayInfo map[string]interface{}
 }
 
 type Solver struct {
@@ -255,7 +257,11 @@ func Discharge(pre *Pre, fgs []*FuncGen, filter func(*Obligation) bool, timeoutM
 			defer wg.Done()
 			defer func() { <-sem }()
 			var b strings.Builder
-			b.WriteString(jb.fg.Script(jb.blk))
+			blk := jb.blk
+			if blk == -2 {
+				blk = -3 // prologue only
+			}
+			b.WriteString(jb.fg.Script(blk))
 			for _, o := range jb.obls {
 				b.WriteString(oblScript(o, false))
 			}
@@ -300,7 +306,11 @@ func Discharge(pre *Pre, fgs []*FuncGen, filter func(*Obligation) bool, timeoutM
 			defer wg.Done()
 			defer func() { <-sem }()
 			fg := byFg[o]
-			script := fg.Script(o.Block) + oblScript(o, true)
+			blk := o.Block
+			if blk == -2 {
+				blk = -3
+			}
+			script := fg.Script(blk) + oblScript(o, true)
 			script = pre.For(script) + script
 			r := raceSolvers(script, o, timeoutMs*3, results[o], confirm)
 			mu.Lock()
